@@ -9,6 +9,7 @@ import (
 	"errors"
 	"io"
 	"reflect"
+	"runtime"
 	"strconv"
 	"strings"
 	"sync"
@@ -961,6 +962,14 @@ func (c *callable) Value(env *env) reflect.Value {
 			if p, ok := err.(*PanicError); ok {
 				// The function has panicked: the caller panics with the
 				// same value, so that it can be recovered as in Go.
+				// A Go runtime error, as the one raised by panic(nil), is
+				// the panic of the function and not a fatal error of the
+				// native caller.
+				if err, ok := p.message.(runtime.Error); ok {
+					if _, ok := err.(runtimeError); !ok {
+						panic(runtimeError(err.Error()))
+					}
+				}
 				panic(p.message)
 			}
 			panic(err)
